@@ -222,19 +222,25 @@ func Supervise(p *Prop, tier string) int {
 		js, err := os.ReadFile(oc.base + ".json")
 		completed := err == nil && json.Unmarshal(js, &sr) == nil && sr.Completed
 		if !completed {
-			inflight, _, class, key := readSlot(oc.base + ".slot")
+			inflight := readSlot(oc.base + ".slot")
 			tail := tailFile(oc.base+".out", 6000)
 			switch {
 			case oc.timedOut:
 				desc := "no case in flight"
-				if inflight {
-					desc = fmt.Sprintf("case in flight: class=%s key=%s", class, hex.EncodeToString(key))
+				if len(inflight) > 0 {
+					desc = fmt.Sprintf("case in flight: class=%s key=%s", inflight[0].class, hex.EncodeToString(inflight[0].key))
 				}
 				r.AddInconclusive("shard %s/%d exceeded the %ds watchdog (%s)", oc.build, oc.shard, wd, desc)
-			case inflight:
-				r.AddViolation(Violation{Class: class, VClass: "crash", KeyHex: hex.EncodeToString(key),
-					Message: fmt.Sprintf("process died (%v) while this case was in flight; output tail:\n%s", oc.err, tail),
-					Input:   render(p, class, key), Shard: oc.shard, Build: oc.build})
+			case len(inflight) > 0:
+				for _, c := range inflight {
+					note := ""
+					if len(inflight) > 1 {
+						note = fmt.Sprintf(" (one of %d cases in flight on different goroutines)", len(inflight))
+					}
+					r.AddViolation(Violation{Class: c.class, VClass: "crash", KeyHex: hex.EncodeToString(c.key),
+						Message: fmt.Sprintf("process died (%v) while this case was in flight%s; output tail:\n%s", oc.err, note, tail),
+						Input:   render(p, c.class, c.key), Shard: oc.shard, Build: oc.build})
+				}
 			default:
 				r.AddInconclusive("shard %s/%d died outside a case (%v): %s", oc.build, oc.shard, oc.err, tail)
 			}
